@@ -77,6 +77,9 @@ def _task(kind, prop, tier, arg=None):
     if kind == 'O':
         from .. import zops
         return zops.verify(prop)
+    if kind == 'V':
+        from .. import zqrv
+        return zqrv.run('bond_ops.qr')
     if kind == 'Q':
         from .. import zqr
         which, kind = arg
@@ -109,6 +112,8 @@ def deductive_all(prop, tier='quick'):
     tasks += [('H', prop, tier, name) for name, (mk, props) in zshape.CONTRACTS.items() if prop in props]
     if prop in ('C04', 'C08', 'C09', 'C10'):
         tasks.append(('O', prop, tier, None))
+    if prop == 'C11':
+        tasks.insert(0, ('V', prop, tier, None))
     if len(tasks) <= 4 and prop not in ('C12', 'C13'):
         out = []
         for t in tasks:
